@@ -23,6 +23,29 @@
 #include "celeritas/em/interactor/MollerBhabhaInteractor.hh"
 #include "celeritas/em/interactor/MuHadIonizationInteractor.hh"
 #include "celeritas/em/interactor/detail/BremFinalStateHelper.hh"
+#include "celeritas/em/distribution/BraggICRU73QOEnergyDistribution.hh"
+#include "celeritas/em/distribution/MuBBEnergyDistribution.hh"
+#include "celeritas/em/interactor/CombinedBremInteractor.hh"
+#include "celeritas/em/interactor/CoulombScatteringInteractor.hh"
+#include "celeritas/em/interactor/LivermorePEInteractor.hh"
+#include "celeritas/em/interactor/MuBremsstrahlungInteractor.hh"
+#include "celeritas/em/interactor/RayleighInteractor.hh"
+#include "celeritas/em/interactor/RelativisticBremInteractor.hh"
+#include "celeritas/em/interactor/SeltzerBergerInteractor.hh"
+#include "celeritas/em/model/CombinedBremModel.hh"
+#include "celeritas/em/model/CoulombScatteringModel.hh"
+#include "celeritas/em/model/LivermorePEModel.hh"
+#include "celeritas/em/model/RayleighModel.hh"
+#include "celeritas/em/model/RelativisticBremModel.hh"
+#include "celeritas/em/model/SeltzerBergerModel.hh"
+#include "celeritas/em/params/AtomicRelaxationParams.hh"
+#include "celeritas/em/params/WentzelOKVIParams.hh"
+#include "celeritas/io/AtomicRelaxationReader.hh"
+#include "celeritas/io/LivermorePEReader.hh"
+#include "celeritas/io/SeltzerBergerReader.hh"
+#include "celeritas/mat/MaterialView.hh"
+#include "celeritas/random/XorwowRngEngine.hh"
+#include "celeritas/random/XorwowRngParams.hh"
 #include "celeritas/mat/MaterialTrackView.hh"
 #include "celeritas/phys/CutoffView.hh"
 #include "celeritas/phys/InteractionUtils.hh"
@@ -64,8 +87,36 @@ struct AllocBox
 };
 
 class Oracle;
+
+//! the real XorwowRngEngine with a draw counter
+struct CountingXorwow
+{
+    using result_type = unsigned int;
+    celeritas::XorwowRngEngine* eng{nullptr};
+    std::size_t count{0};
+    static constexpr result_type min() { return 0u; }
+    static constexpr result_type max() { return 0xffffffffu; }
+    result_type operator()() { return (*eng)(); }
+    std::size_t draws() const { return count; }
+};
 //---------------------------------------------------------------------------//
 }  // namespace vh
+
+namespace celeritas
+{
+template<>
+class GenerateCanonical<vh::CountingXorwow, double>
+{
+  public:
+    using real_type = double;
+    using result_type = double;
+    result_type operator()(vh::CountingXorwow& rng)
+    {
+        ++rng.count;
+        return GenerateCanonical<XorwowRngEngine, double>()(*rng.eng);
+    }
+};
+}  // namespace celeritas
 
 using namespace celeritas;
 using std::string;
@@ -205,14 +256,176 @@ std::size_t AllocBox::reported_size() const
 namespace vh
 {
 //---------------------------------------------------------------------------//
+//! fixtures that mirror the SetUp of the repository's own interactor tests
+struct FxCu : Fixture
+{
+    std::shared_ptr<SeltzerBergerModel> sb;
+    std::shared_ptr<CombinedBremModel> cb;
+    std::shared_ptr<RelativisticBremModel> rb, rb_lpm;
+    FxCu()
+    {
+        using namespace units;
+        MaterialParams::Input mat_inp;
+        mat_inp.elements = {{AtomicNumber{29}, AmuMass{63.546}, {}, Label{"Cu"}}};
+        mat_inp.materials = {{native_value_from(MolCcDensity{0.141}), 293.0, MatterState::solid,
+                              {{ElementId{0}, 1.0}}, Label{"Cu"}}};
+        this->set_material_params(mat_inp);
+        std::string data_path = this->test_data_path("celeritas", "");
+        SeltzerBergerReader read_element_data(data_path.c_str());
+        ImportProcess ipe = this->make_import_process(
+            pdg::electron(), pdg::gamma(), ImportProcessClass::e_brems,
+            {ImportModelClass::e_brems_sb, ImportModelClass::e_brems_lpm});
+        ImportProcess ipp = ipe;
+        ipp.particle_pdg = pdg::positron().get();
+        this->set_imported_processes({std::move(ipe), std::move(ipp)});
+        sb = std::make_shared<SeltzerBergerModel>(ActionId{0}, *this->particle_params(),
+                                                  *this->material_params(),
+                                                  this->imported_processes(), read_element_data);
+        cb = std::make_shared<CombinedBremModel>(ActionId{0}, *this->particle_params(),
+                                                 *this->material_params(),
+                                                 this->imported_processes(), read_element_data,
+                                                 true);
+        rb = std::make_shared<RelativisticBremModel>(ActionId{0}, *this->particle_params(),
+                                                     *this->material_params(),
+                                                     this->imported_processes(), false);
+        rb_lpm = std::make_shared<RelativisticBremModel>(ActionId{0}, *this->particle_params(),
+                                                         *this->material_params(),
+                                                         this->imported_processes(), true);
+        this->set_material("Cu");
+    }
+};
+
+struct FxK : Fixture
+{
+    std::shared_ptr<LivermorePEModel> model;
+    AtomicRelaxationParams::Input relax_inp;
+    std::shared_ptr<AtomicRelaxationParams> relax_params;
+    HostVal<AtomicRelaxStateData> relax_states;
+    HostCRef<AtomicRelaxParamsData> relax_params_ref;
+    HostRef<AtomicRelaxStateData> relax_states_ref;
+    HostCRef<AtomicRelaxParamsData> no_relax_params_ref;
+    HostRef<AtomicRelaxStateData> no_relax_states_ref;
+    double relax_cut{-1};
+
+    FxK()
+    {
+        using namespace units;
+        MaterialParams::Input mi;
+        mi.elements = {{AtomicNumber{19}, AmuMass{39.0983}, {}, Label{"K"}}};
+        mi.materials = {{native_value_from(MolCcDensity{1e-5}), 293., MatterState::solid,
+                         {{ElementId{0}, 1.0}}, Label{"K"}}};
+        this->set_material_params(mi);
+        this->set_cutoffs(0, 0);
+        std::string data_path = this->test_data_path("celeritas", "");
+        LivermorePEReader read_element_data(data_path.c_str());
+        model = std::make_shared<LivermorePEModel>(ActionId{0}, *this->particle_params(),
+                                                   *this->material_params(), read_element_data);
+        this->set_material("K");
+    }
+    void set_relax(double cut)
+    {
+        if (cut == relax_cut)
+            return;
+        relax_cut = cut;
+        this->set_cutoffs(cut, cut);
+        std::string data_path = this->test_data_path("celeritas", "");
+        AtomicRelaxationReader read_transition_data(data_path.c_str(), data_path.c_str());
+        relax_inp.cutoffs = this->cutoff_params();
+        relax_inp.materials = this->material_params();
+        relax_inp.particles = this->particle_params();
+        relax_inp.load_data = read_transition_data;
+        relax_inp.is_auger_enabled = true;
+        relax_params = std::make_shared<AtomicRelaxationParams>(relax_inp);
+        relax_params_ref = relax_params->host_ref();
+        relax_states = {};
+        resize(&relax_states, relax_params_ref, 1);
+        relax_states_ref = relax_states;
+    }
+};
+
+struct FxRay : Fixture
+{
+    std::shared_ptr<RayleighModel> model;
+    FxRay()
+    {
+        this->set_imported_processes({this->make_import_process(
+            pdg::gamma(), {}, ImportProcessClass::rayleigh,
+            {ImportModelClass::livermore_rayleigh})});
+        model = std::make_shared<RayleighModel>(ActionId{0}, *this->particle_params(),
+                                                *this->material_params(),
+                                                this->imported_processes());
+        this->set_material("PbWO");
+    }
+};
+
+struct FxCoul : Fixture
+{
+    std::shared_ptr<CoulombScatteringModel> model;
+    std::vector<std::shared_ptr<WentzelOKVIParams>> wentzel;
+    FxCoul()
+    {
+        using namespace units;
+        MaterialParams::Input mat_inp;
+        mat_inp.isotopes = {{AtomicNumber{29}, AtomicNumber{63}, MevEnergy{551.384},
+                             MevEnergy{6.122}, MevEnergy{10.864}, MevMass{58618.5}, Label{"63Cu"}},
+                            {AtomicNumber{29}, AtomicNumber{65}, MevEnergy{569.211},
+                             MevEnergy{7.454}, MevEnergy{9.911}, MevMass{60479.8}, Label{"65Cu"}}};
+        mat_inp.elements = {{AtomicNumber{29}, AmuMass{63.546},
+                             {{IsotopeId{0}, 0.692}, {IsotopeId{1}, 0.308}}, Label{"Cu"}}};
+        mat_inp.materials = {{native_value_from(MolCcDensity{0.141}), 293.0, MatterState::solid,
+                              {{ElementId{0}, 1.0}}, Label{"Cu"}}};
+        this->set_material_params(mat_inp);
+        ImportProcess ipe = this->make_import_process(pdg::electron(), {},
+                                                      ImportProcessClass::coulomb_scat,
+                                                      {ImportModelClass::e_coulomb_scattering});
+        ImportProcess ipp = ipe;
+        ipp.particle_pdg = pdg::positron().get();
+        this->set_imported_processes({std::move(ipe), std::move(ipp)});
+        model = std::make_shared<CoulombScatteringModel>(ActionId{0}, *this->particle_params(),
+                                                         *this->material_params(),
+                                                         this->imported_processes());
+        for (auto ff : range(NuclearFormFactorType::size_))
+        {
+            WentzelOKVIParams::Options options;
+            options.is_combined = false;
+            options.polar_angle_limit = 0;
+            options.form_factor = ff;
+            wentzel.push_back(
+                std::make_shared<WentzelOKVIParams>(this->material_params(), options));
+        }
+        this->set_material("Cu");
+    }
+};
+
+//---------------------------------------------------------------------------//
+/*!
+ * Impl-side oracle: `x <model> <cap> <size> <E> <dx> <dy> <dz> <cut> | s <seed>` (real
+ * XorwowRngEngine) or `| u <script…>` (ScriptedEngine).  Every interactor named by the property
+ * can be run; output format is the protocol's.
+ */
 class Oracle
 {
   public:
-    explicit Oracle(Fixture& fx) : fx_(fx) {}
-    std::string run(std::vector<std::string> const&) { return "bad-op"; }
+    explicit Oracle(Fixture& fx) : fx_(fx)
+    {
+        rng_params_ = std::make_shared<XorwowRngParams>(0);
+        rng_states_ = std::make_unique<RngStore>(rng_params_->host_ref(), StreamId{0}, 1);
+    }
+    std::string run(std::vector<std::string> const& w);
 
   private:
+    using RngStore = CollectionStateStore<XorwowRngStateData, MemSpace::host>;
     Fixture& fx_;
+    std::shared_ptr<XorwowRngParams> rng_params_;
+    std::unique_ptr<RngStore> rng_states_;
+    std::unique_ptr<FxCu> cu_;
+    std::unique_ptr<FxK> k_;
+    std::unique_ptr<FxRay> ray_;
+    std::unique_ptr<FxCoul> coul_;
+
+    template<class Rng>
+    std::string dispatch(std::string const& model, std::size_t cap, std::size_t size,
+                         std::vector<double> const& d, Rng& rng);
 };
 //---------------------------------------------------------------------------//
 }  // namespace vh
@@ -252,6 +465,238 @@ bool unit_ok(vecd const& d, std::size_t i)
 
 //---------------------------------------------------------------------------//
 }  // namespace
+
+namespace vh
+{
+//---------------------------------------------------------------------------//
+template<class Rng>
+std::string Oracle::dispatch(std::string const& model, std::size_t cap, std::size_t size,
+                             std::vector<double> const& d, Rng& rng)
+{
+    if (size > cap)
+        return "bad-op";
+    double const E = d[0];
+    Real3 const dir{d[1], d[2], d[3]};
+    double const cut = d[4];
+    AllocBox box(cap, size);
+    auto& alloc = *box.alloc;
+    Interaction r;
+    auto pdg_of = [](std::string const& m, char const* minus, PDGNumber a, PDGNumber b) {
+        return m.find(minus) != std::string::npos ? a : b;
+    };
+
+    if (model == "kn")
+    {
+        KleinNishinaData data;
+        data.ids.electron = fx_.electron;
+        data.ids.gamma = fx_.gamma;
+        data.inv_electron_mass = 1 / fx_.emass.value();
+        fx_.set_inc_particle(pdg::gamma(), MevEnergy{E});
+        r = KleinNishinaInteractor(data, fx_.particle_track(), dir, alloc)(rng);
+    }
+    else if (model == "gg")
+    {
+        EPlusGGData data;
+        data.positron = fx_.positron;
+        data.gamma = fx_.gamma;
+        data.electron_mass = fx_.emass;
+        fx_.set_inc_particle(pdg::positron(), MevEnergy{E});
+        r = EPlusGGInteractor(data, fx_.particle_track(), dir, alloc)(rng);
+    }
+    else if (model == "mb-" || model == "mb+")
+    {
+        MollerBhabhaData data;
+        data.ids.electron = fx_.electron;
+        data.ids.positron = fx_.positron;
+        data.electron_mass = fx_.emass;
+        fx_.set_inc_particle(model == "mb-" ? pdg::electron() : pdg::positron(), MevEnergy{E});
+        fx_.set_cutoffs(cut, cut);
+        r = MollerBhabhaInteractor(
+            data, fx_.particle_track(), fx_.cutoff_params()->get(MaterialId{0}), dir, alloc)(rng);
+    }
+    else if (model == "bb-" || model == "bb+" || model == "mubb-" || model == "mubb+"
+             || model == "bragg" || model == "icru")
+    {
+        MuHadIonizationData data;
+        data.electron = fx_.electron;
+        data.electron_mass = fx_.emass;
+        PDGNumber p = model == "bragg" ? pdg::mu_plus()
+                      : model == "icru" ? pdg::mu_minus()
+                                        : pdg_of(model, "-", pdg::mu_minus(), pdg::mu_plus());
+        fx_.set_inc_particle(p, MevEnergy{E});
+        fx_.set_cutoffs(cut, cut);
+        auto cv = fx_.cutoff_params()->get(MaterialId{0});
+        if (model[0] == 'b' && model[1] == 'b')
+            r = MuHadIonizationInteractor<BetheBlochEnergyDistribution>(
+                data, fx_.particle_track(), cv, dir, alloc)(rng);
+        else if (model[0] == 'm')
+            r = MuHadIonizationInteractor<MuBBEnergyDistribution>(
+                data, fx_.particle_track(), cv, dir, alloc)(rng);
+        else
+            r = MuHadIonizationInteractor<BraggICRU73QOEnergyDistribution>(
+                data, fx_.particle_track(), cv, dir, alloc)(rng);
+    }
+    else if (model == "bh" || model == "bhnolpm" || model == "bhpb")
+    {
+        BetheHeitlerData data;
+        data.ids.electron = fx_.electron;
+        data.ids.positron = fx_.positron;
+        data.ids.gamma = fx_.gamma;
+        data.electron_mass = fx_.emass;
+        data.enable_lpm = model != "bhnolpm";
+        fx_.set_inc_particle(pdg::gamma(), MevEnergy{E});
+        fx_.set_material(model == "bhpb" ? "Pb" : "Cu");
+        auto const material = fx_.material_track().make_material_view();
+        auto const element = material.make_element_view(ElementComponentId{0});
+        r = BetheHeitlerInteractor(data, fx_.particle_track(), dir, alloc, material, element)(rng);
+        fx_.set_material("Cu");
+    }
+    else if (model == "mubrems-" || model == "mubrems+")
+    {
+        MuBremsstrahlungData data;
+        data.gamma = fx_.gamma;
+        data.mu_minus = fx_.mu_minus;
+        data.mu_plus = fx_.mu_plus;
+        data.electron_mass = fx_.emass;
+        fx_.set_inc_particle(model == "mubrems-" ? pdg::mu_minus() : pdg::mu_plus(), MevEnergy{E});
+        fx_.set_cutoffs(cut, cut);
+        auto const material = fx_.material_track().make_material_view();
+        r = MuBremsstrahlungInteractor(data, fx_.particle_track(), dir,
+                                       fx_.cutoff_params()->get(MaterialId{0}), alloc, material,
+                                       ElementComponentId{0})(rng);
+    }
+    else if (model == "sb-" || model == "sb+" || model == "rb-" || model == "rb+"
+             || model == "rblpm-" || model == "rblpm+" || model == "cb-" || model == "cb+")
+    {
+        if (!cu_)
+            cu_ = std::make_unique<FxCu>();
+        auto& f = *cu_;
+        f.set_inc_particle(model.back() == '-' ? pdg::electron() : pdg::positron(), MevEnergy{E});
+        f.set_cutoffs(cut, cut);
+        auto const material = f.material_track().make_material_view();
+        auto cv = f.cutoff_params()->get(MaterialId{0});
+        if (model[0] == 's')
+            r = SeltzerBergerInteractor(f.sb->host_ref(), f.particle_track(), dir, cv, alloc,
+                                        material, ElementComponentId{0})(rng);
+        else if (model[0] == 'c')
+            r = CombinedBremInteractor(f.cb->host_ref(), f.particle_track(), dir, cv, alloc,
+                                       material, ElementComponentId{0})(rng);
+        else
+            r = RelativisticBremInteractor(
+                (model[2] == 'l' ? f.rb_lpm : f.rb)->host_ref(), f.particle_track(), dir, cv,
+                alloc, material, ElementComponentId{0})(rng);
+    }
+    else if (model == "pe" || model == "perelax")
+    {
+        if (!k_)
+            k_ = std::make_unique<FxK>();
+        auto& f = *k_;
+        f.set_inc_particle(pdg::gamma(), MevEnergy{E});
+        ElementId el_id{0};
+        if (model == "perelax")
+        {
+            f.set_relax(cut);
+            AtomicRelaxationHelper relaxation(
+                f.relax_params_ref, f.relax_states_ref, el_id, TrackSlotId{0});
+            r = LivermorePEInteractor(f.model->host_ref(), relaxation, el_id, f.particle_track(),
+                                      f.cutoff_params()->get(MaterialId{0}), dir, alloc)(rng);
+        }
+        else
+        {
+            AtomicRelaxationHelper relaxation(
+                f.no_relax_params_ref, f.no_relax_states_ref, el_id, TrackSlotId{0});
+            r = LivermorePEInteractor(f.model->host_ref(), relaxation, el_id, f.particle_track(),
+                                      f.cutoff_params()->get(MaterialId{0}), dir, alloc)(rng);
+        }
+    }
+    else if (model == "ray0" || model == "ray1" || model == "ray2")
+    {
+        if (!ray_)
+            ray_ = std::make_unique<FxRay>();
+        auto& f = *ray_;
+        f.set_inc_particle(pdg::gamma(), MevEnergy{E});
+        auto const material = f.material_track().make_material_view();
+        ElementId el_id = material.element_id(ElementComponentId{
+            static_cast<ElementComponentId::size_type>(model[3] - '0')});
+        r = RayleighInteractor(f.model->host_ref(), f.particle_track(), dir, el_id)(rng);
+    }
+    else if (model.size() == 5 && model.substr(0, 2) == "cs" && (model[2] == '-' || model[2] == '+')
+             && model[3] >= '0' && model[3] <= '2' && (model[4] == 'a' || model[4] == 'b'))
+    {
+        if (!coul_)
+            coul_ = std::make_unique<FxCoul>();
+        auto& f = *coul_;
+        f.set_inc_particle(model[2] == '-' ? pdg::electron() : pdg::positron(), MevEnergy{E});
+        f.set_cutoffs(cut, cut);
+        auto const material = f.material_track().make_material_view();
+        IsotopeView const isotope
+            = material.make_element_view(ElementComponentId{0})
+                  .make_isotope_view(IsotopeComponentId{
+                      static_cast<IsotopeComponentId::size_type>(model[4] - 'a')});
+        std::size_t ff = static_cast<std::size_t>(model[3] - '0');
+        if (ff >= f.wentzel.size())
+            return "bad-op";
+        r = CoulombScatteringInteractor(f.model->host_ref(), f.wentzel[ff]->host_ref(),
+                                        f.particle_track(), dir, material, isotope, ElementId{0},
+                                        f.cutoff_params()->get(MaterialId{0}))(rng);
+    }
+    else
+    {
+        return "bad-op";
+    }
+    if (r.action == Interaction::Action::failed && !box.untouched())
+        return "failed-but-wrote";
+    if (r.action == Interaction::Action::failed && rng.draws() != 0)
+        return "failed-after-draws";
+    return show_interaction(r, box.reported_size(), rng.draws());
+}
+
+std::string Oracle::run(std::vector<std::string> const& w)
+{
+    // x model cap size E dx dy dz cut | s seed   /   | u script…
+    if (w.size() < 12 || w[9] != "|" || w[0] != "x")
+        return "bad-op";
+    std::size_t cap = 0, size = 0;
+    vecd d, script;
+    if (!parse_nat(w[2], &cap) || !parse_nat(w[3], &size) || !parse_all(w, 4, 9, &d))
+        return "bad-op";
+    for (double v : d)
+        if (!std::isfinite(v))
+            return "bad-op";
+    try
+    {
+        if (w[10] == "s" && w.size() == 12)
+        {
+            std::uint64_t seed;
+            if (!vh::parse_hex(w[11], &seed) || seed >= (1ull << 32))
+                return "bad-op";
+            XorwowRngEngine eng(rng_params_->host_ref(), rng_states_->ref(), TrackSlotId{0});
+            XorwowRngInitializer init;
+            init.seed = {static_cast<unsigned int>(seed)};
+            init.subsequence = 0;
+            init.offset = 0;
+            eng = init;
+            CountingXorwow rng{&eng, 0};
+            return this->dispatch(w[1], cap, size, d, rng);
+        }
+        if (w[10] == "u" && parse_all(w, 11, w.size(), &script))
+        {
+            ScriptedEngine rng{script};
+            return this->dispatch(w[1], cap, size, d, rng);
+        }
+    }
+    catch (ScriptExhausted const&)
+    {
+        return "script-exhausted";
+    }
+    catch (std::exception const& e)
+    {
+        return std::string("exception ") + typeid(e).name();
+    }
+    return "bad-op";
+}
+//---------------------------------------------------------------------------//
+}  // namespace vh
 
 int main(int argc, char** argv)
 {
